@@ -16,7 +16,7 @@ THEOREMS = ["C33_only_locals_renamed", "C33_renamable_not_protected", "C33_renam
 META = {
     "group": "JsMin",
     "technique": "Coq proofs over a token-level Gallina model of minify.go (tokenize, collectLocals, renameLocals, name generator, emit) + vm_compute correspondence with the real functions byte-for-byte + node as behaviour oracle (search layer)",
-    "text": "Proved for all token lists and every map-iteration order: C33_only_locals_renamed (each token is emitted unchanged, or is an identifier from the renamable set, not after '.'/'?.', replaced by its short name, the original kept as key in the shorthand case), C33_renamable_not_protected (renamable names are never reserved words, file-scope names or names used in a template substitution), C33_renaming_injective_fresh and C33_no_capture (short names are pairwise distinct and differ from every identifier of the source). Separator insertion: C33_emit_relex_lists (for every list of identifier, number and operator tokens of any values and length that is well formed - shape per kind, '/' not in regex position, the byte following each token in the emitted text cannot extend it - lex(emit ts) = ts modulo blanks, by induction on the list over C33_lexer_locality: the model lexer's scan of a token depends only on the token, the next byte of the text and the regex context), C33_emit_relex_chain (the pairwise theorem lifted to whole lists over the alphabet: adjacent producible non-excluded pairs suffice), C33_minified_relex (the minified text lexes to the renamed token list); C33_emit_relex_pairs_partial (every pair over a 64-token alphabet re-lexes to itself after emit, except a listed set of pairs that remain valid JavaScript) and C33_emit_relex_refuted; the code before the repair is refuted by C33_old_refuted. The model is compared with the real tokenizer/collector/renamer/emitter on generated scripts and windows of every shipped dashboard file on every run; original and minified scripts are run under node and every shipped file is syntax-checked after minification. partial: JavaScript semantics are not modelled (scope-blind renaming is only observed through node: recorded findings method-shorthand-name, destructuring-default, global-collision); the whole-list relex theorems exclude string, template and regex literal tokens (their scan is not part of the proved locality; covered by the run-time relex oracle and the correspondence)",
+    "text": "Proved for all token lists and every map-iteration order: C33_only_locals_renamed (each token is emitted unchanged, or is an identifier from the renamable set, not after '.'/'?.', replaced by its short name, the original kept as key in the shorthand case), C33_renamable_not_protected (renamable names are never reserved words, file-scope names or names used in a template substitution), C33_renaming_injective_fresh and C33_no_capture (short names are pairwise distinct and differ from every identifier of the source). Separator insertion: C33_emit_relex_lists (for every list of identifier, number, operator, string and template tokens of any values and length that is well formed - shape per kind, '/' not in regex position, the byte following each token in the emitted text cannot extend it - lex(emit ts) = ts modulo blanks, by induction on the list over C33_lexer_locality: the model lexer's scan of a token depends only on the token, the next byte of the text and the regex context), C33_emit_relex_chain (the pairwise theorem lifted to whole lists over the alphabet: adjacent producible non-excluded pairs suffice), C33_minified_relex (the minified text lexes to the renamed token list); C33_emit_relex_pairs_partial (every pair over a 64-token alphabet re-lexes to itself after emit, except a listed set of pairs that remain valid JavaScript) and C33_emit_relex_refuted; the code before the repair is refuted by C33_old_refuted. The model is compared with the real tokenizer/collector/renamer/emitter on generated scripts and windows of every shipped dashboard file on every run; original and minified scripts are run under node and every shipped file is syntax-checked after minification. partial: JavaScript semantics are not modelled (scope-blind renaming is only observed through node: recorded findings method-shorthand-name, destructuring-default, global-collision); the whole-list relex theorems exclude regex literal tokens and comments (the regex scan is not part of the proved locality; covered by the run-time relex oracle and the correspondence); preservation of well-formedness by the renaming is a hypothesis of C33_minified_relex",
     "note": "Trusted: Coq kernel; hand-written model tied by correspondence; node 20 as JavaScript oracle; harness/C33/c33_test.go; lib/jsmin_util.py generator and alignment.",
 }
 
